@@ -154,6 +154,21 @@ def run(ctx):
            None if not bad else str(bad[:3]))
     ctx.ob("C18.4", "%s|preread-exists" % FM.nr0.id, "(anchor) new_request reads small bodies at parse time", any(r["reads"] > 0 for r in FM.rows), "%s:%d" % (FM.nr0.file, FM.nr0.line), nontrivial=False)
 
+    # ---- C18.6 the interim response reaches the wire: the printer writes a head for a 100 status on every successful path (whatever the
+    # request's version: it may not be dropped silently)
+    import response_rules as RSP
+    RM_ = RSP.resp_model(facts)
+    bad6, n6 = [], 0
+    for te_ in ("Identity", "Chunked"):
+        for pth in RM_.run(100, 0, True, te_, False):
+            S_ = RM_.summary(pth)
+            if not S_["ok"]:
+                continue
+            n6 += 1
+            if S_["head"] is None:
+                bad6.append("returns Ok without having written the head")
+    ctx.ob("C18.6", "%s|interim-head-written" % RM_.rp.id, "printing a 100 response writes its head on every successful path", n6 > 0 and not bad6, "%s:%d" % (RM_.rp.file, RM_.rp.line), None if not bad6 else bad6[0])
+
     # ---- C18.5 interim responses are never chunked and carry no body
     import rules_C05
     CM = rules_C05.chooser_model(facts)
